@@ -16,15 +16,32 @@ use crate::vstore::model::{Model, diff};
 use crate::vstore::ops::*;
 use crate::vstore::universe::*;
 
+/// Databases live in many sub-directories: journal create/unlink on every autocommit write
+/// otherwise serialises all worker threads on one tmpfs directory lock.
+fn shard_dir(dir: &Path, name: &str) -> std::path::PathBuf {
+    let d = dir.join(format!("d{:02x}", crate::rng::fnv(name.as_bytes()) % 251));
+    let _ = std::fs::create_dir_all(&d);
+    d
+}
+
 pub fn open_sqlite(dir: &Path, name: &str) -> MdkSqliteStorage {
-    let p = dir.join(name);
+    // two thirds of the storage-level sequences use SQLite's ":memory:" path (same SQL, no file
+    // system calls, ~4x faster); one third uses a real file with rollback journal
+    if name.starts_with("mem:") {
+        return MdkSqliteStorage::new_unencrypted(":memory:").expect("open sqlite :memory:");
+    }
+    let p = shard_dir(dir, name).join(name);
     let _ = std::fs::remove_file(&p);
     MdkSqliteStorage::new_unencrypted(&p).expect("open sqlite")
 }
 
 pub fn rm_sqlite(dir: &Path, name: &str) {
+    if name.starts_with("mem:") {
+        return;
+    }
+    let d = shard_dir(dir, name);
     for suf in ["", "-journal", "-wal", "-shm"] {
-        let _ = std::fs::remove_file(dir.join(format!("{name}{suf}")));
+        let _ = std::fs::remove_file(d.join(format!("{name}{suf}")));
     }
 }
 
@@ -56,6 +73,16 @@ fn gen_ops(rng: &mut Rng, cfg: GenCfg, n: usize, clean_snapshot_names: bool) -> 
             } else if clean_snapshot_names && model.snapshots.contains_key(&(*gi, *name)) {
                 // clean regime: never re-take a snapshot under a live name
                 op = Op::SnapRelease { g: *gi, name: *name };
+            }
+        }
+        if let Op::SaveGroup(spec) = &mut op
+            && let Some(o) = spec.nid_of
+        {
+            // cross-group collision probe: only claim an id that the other group holds right now
+            // (both backends must refuse). Re-using an id that another group held earlier is
+            // outside the contract explored here (see DESIGN.md, C10 assumptions).
+            if o == spec.g || model.groups.get(&o).and_then(|x| x.record.as_ref()).map(|r| r.nostr_group_id) != Some(u.nids[o][spec.nid]) {
+                spec.nid_of = None;
             }
         }
         model.apply(&u, &op);
@@ -107,7 +134,7 @@ pub fn c10_scenario(prop: &str, i: u64, rng: &mut Rng, out: &mut Outcome, dir: &
     };
     out.evaluations += 1;
     let mem = MdkMemoryStorage::default();
-    let dbname = format!("c10-{i}.db");
+    let dbname = if i % 3 != 0 { format!("mem:c10-{i}") } else { format!("c10-{i}.db") };
     let sql = open_sqlite(dir, &dbname);
     let mut model = Model::default();
     let mut nontrivial = false;
@@ -405,7 +432,7 @@ pub fn c09_scenario(prop: &str, i: u64, rng: &mut Rng, out: &mut Outcome, dir: &
     let mem = MdkMemoryStorage::default();
     let mut nontrivial = c09_backend(prop, "memory", i, &mem, &u, &ops, out);
     if with_sqlite {
-        let dbname = format!("c09-{i}.db");
+        let dbname = if i % 2 != 0 { format!("mem:c09-{i}") } else { format!("c09-{i}.db") };
         let sql = open_sqlite(dir, &dbname);
         nontrivial |= c09_backend(prop, "sqlite", i, &sql, &u, &ops, out);
         out.count("sqlite_sequences");
@@ -513,7 +540,7 @@ pub fn c18_storage_scenario(prop: &str, i: u64, rng: &mut Rng, out: &mut Outcome
     };
     out.evaluations += 1;
     let mem = MdkMemoryStorage::default();
-    let dbname = format!("c18-{i}.db");
+    let dbname = if i % 3 != 0 { format!("mem:c18-{i}") } else { format!("c18-{i}.db") };
     let sql = open_sqlite(dir, &dbname);
     let mut model = Model::default();
     let mut msgs = 0;
